@@ -370,6 +370,12 @@ def handbuilt() -> list[tuple[str, dict]]:
              {"t": "lang", "v": [["english", "e\nf"], ["german", "g"]]}, {"t": "const", "v": "$V"}),
            O(1, "End")], type="ACTOR", linked_to=-1, name="ACTOR_X"),
         R([O(2, "Jump", 0)], type="OBJECT", linked_to=5)]}))
+    # a switch with six cases where the first and the fourth share a body (non-adjacent): the decompiler has to label it
+    V2 = {"t": "const", "v": "$S"}
+    shapes.append(("switch_shared_nonadjacent_case_body", {"routines": [R([
+        O(0, "pre"), O(1, "Switch", V2), O(2, "Case", 1, 9), O(3, "Case", 2, 11), O(4, "Case", 3, 13), O(5, "Case", 4, 9), O(6, "Case", 5, 15),
+        O(7, "Case", 6, 17), O(8, "Jump", 19), O(9, "body_a"), O(10, "Jump", 19), O(11, "body_b"), O(12, "Jump", 19), O(13, "body_c"),
+        O(14, "Jump", 19), O(15, "body_d"), O(16, "Jump", 19), O(17, "body_e"), O(18, "Jump", 19), O(19, "after"), O(20, "End")])]}))
     # self loop and nested back edges
     shapes.append(("loops", {"routines": [R([
         O(0, "op_a"), O(1, "BranchBit", V, 0, 0), O(2, "op_b"), O(3, "BranchBit", V, 1, 2), O(4, "Jump", 0)])]}))
